@@ -262,6 +262,9 @@ func ValidateRawTreeDefault(payload treestorage.TreeStorageCreatePayload, storag
 }
 
 func ValidateFilterRawTree(payload treestorage.TreeStorageCreatePayload, storageCreator TreeStorageCreator, aclList list.AclList) (objTree ObjectTree, err error) {
+	if payload.RootRawChange == nil {
+		return nil, ErrEmptyChange
+	}
 	aclList.RLock()
 	if !aclList.AclState().HadReadPermissions(aclList.AclState().Identity()) {
 		aclList.RUnlock()
